@@ -4,11 +4,11 @@ import numpy as np
 from common import enc_f, dec_f, close, rng
 
 LEAN_MODULE = 'PGM.Properties.C19'
-LEAN_EXTRA = ['PGM.Properties.C19G']
-TRANSLATORS = ('py2pub', 'py2total')     # py2total: C19G cites TotalG.estimateTotal_public (C09G); entropic_mirror_descent, PublicInference.__init__/estimate/_marginal_loss of public_inference.py -> Generated/PublicG.lean, proved equal to Model/Public.lean in C19G
+LEAN_EXTRA = ['PGM.Properties.C19G', 'PGM.Properties.C19E']
+TRANSLATORS = ('py2pub', 'py2total')     # py2total: C19G cites TotalG.estimateTotal_public (C09G); entropic_mirror_descent, PublicInference.__init__/estimate/_marginal_loss of public_inference.py -> Generated/PublicG.lean, proved equal to Model/Public.lean in C19G; C19E: the generated objective is the property's measurement loss (weighted contingency tables, C15)
 TRUSTED = ['Lean 4.33 kernel', 'axioms: propext, Classical.choice, Quot.sound',
            'hand model PGM/Model/Public.lean of entropic_mirror_descent (as written, stale P included) tied to public_inference.py by running the Float instance on the same objective and comparing the weights',
-           'the objective as a function of the record weights is the quadratic Cert.loss with A = (1/noise) Q Inc (Inc = record -> cell incidence); compared with PublicInference\'s own loss per run',
+           'the objective as a function of the record weights is the quadratic Cert.loss with A = (1/noise) Q Inc (Inc = record -> cell incidence); compared with PublicInference\'s own loss per run; PROVED equal (loss and gradient) to the generated loss_and_grad and to the property\'s measurement loss for records inside the domain: C19E lossgradQuad_is_measurement_loss / gen_lossAndGrad_eq_lossgradQuad',
            'estimate_total is C09']
 ASSUMPTIONS = ['metric L2 or L1 (noise-weighted); the Lean descent model is compared for L2 only']
 RULE = ('public datasets of 5-60 records over 2-3 attributes (duplicates; cells the private data never hits), 1-3 measurements incl. overlapping projections, noise in {0.1,1,5}, '
